@@ -228,6 +228,46 @@ def run(chk: common.Check):
                     if nonit(g0.determinants["sidechain"]) != nonit(g1.determinants["sidechain"]):
                         found.append(("environment:hbond-partner", f"{name} ({what}) {g1.label.strip()}: non-iterative side-chain hydrogen bonds with unlisted residues "
                                       f"{nonit(g0.determinants['sidechain'])} (no option) vs {nonit(g1.determinants['sidechain'])}", {"case": name, "list": opt, "group": g1.label}))
+    # ---- a listed residue keeps its UNLISTED partners of the iterative pair types (ASP/GLU-HIS, COO-COO, ...): single-residue lists
+    for n in ["3SGB.pdb"] + (["1HPX.pdb", "1FTJ-Chain-A.pdb"] if chk.thorough else []):
+        text = structures.read(n)
+        mol0, _ = structures.run(text)
+        c0 = mol0.conformations[mol0.conformation_names[0]]
+        par = mol0.version.parameters
+        by = {}
+        for h in c0.groups:
+            if h.type not in ("BBN", "BBC"):        # (backbone groups carry the label of their residue's side chain)
+                by.setdefault(h.label, h)
+        ipart = lambda g, ref: sorted({d.label for d in g.determinants["sidechain"] if by.get(d.label) is not None
+                                       and par.interaction_matrix.get_value(ref.type, by[d.label].type) == "I"})
+        holders = [g for g in c0.groups if g.titratable and g.atom.type == "atom" and ipart(g, g)]
+        for g in (holders if chk.thorough else rng.sample(holders, min(6, len(holders)))):
+            opt = fmt_key(key_of(g))
+            mol1, _ = structures.run(text, ["--titrate_only", opt])
+            g1 = next((h for h in mol1.conformations[mol1.conformation_names[0]].groups if h.label == g.label and h.type == g.type), None)
+            chk.count(1, key=("single-residue list", n, opt))
+            if g1 is None or ipart(g1, g) != ipart(g, g):
+                found.append(("environment:iterative-partner", f"{n} --titrate_only {opt}: {g.label.strip()} has side-chain partners {ipart(g, g)} of the iterative pair types without the option, "
+                              f"{ipart(g1, g) if g1 is not None else None} with it (unlisted residues still act as hydrogen-bond partners)", {"case": n, "list": opt, "group": g.label}))
+    # ---- an EMPTY list (Python API; the command line cannot express it) titrates nothing - exactly like a list naming only absent residues
+    import io as _io
+    import propka.lib as _L
+    import propka.run as _R
+    from propka.input import read_molecule_file as _rmf, read_parameter_file as _rpf
+    from propka.parameters import Parameters as _P
+    for tlist in ([], [("Q", 9999, " ")]):
+        o_ = _L.loadOptions(["x.pdb", "--quiet"])
+        o_.titrate_only = list(tlist)
+        p_ = _rpf(o_.parameters, _P())
+        from propka.molecular_container import MolecularContainer as _MC
+        m_ = _MC(p_, o_)
+        m_ = _rmf("x.pdb", m_, stream=_io.StringIO(structures.read("3SGB-subset.pdb")))
+        m_.calculate_pka()
+        ntit = sum(1 for g in m_.conformations[m_.conformation_names[0]].groups if g.titratable)
+        chk.count(1, key=("api-list", len(tlist)))
+        if ntit:
+            found.append(("unlisted-titrated:empty-list" if not tlist else "unlisted-titrated", f"3SGB-subset with titrate_only = {tlist!r} (API): {ntit} groups titrate, expected none",
+                          {"titrate_only": tlist}))
     pre = "From Coq Require Import String Ascii List ZArith Bool.\nFrom V Require Import PyString Titrate.\nImport ListNotations.\n"
     res = common.coq_eval("c14f", pre, fexprs, shard=8)
     fdis = []
